@@ -845,7 +845,7 @@ func parseLayers(j judge, tier string) []Layer {
 			digits string
 		}
 		var ms []bm
-		for _, hx := range []string{"1", "f", "8", "1.8", "f.f", "0.1", "fff", "abc.def", "1.000000000001", "7.ff8", "0.0000000000000000000000001"} {
+		for _, hx := range []string{"1", "f", "8", "1.8", "f.f", "0.1", "fff", "abc.def", "1.000000000001", "7.ff8", "0.0000000000000000000000001", "40000000", "c0000000", "1.80000000", "18000000000000000000000", "100000000000000000000000000000000"} { // the last five: many trailing zero bits (representable despite a large negative exponent)
 			ms = append(ms, bm{"0x", 16, hx})
 		}
 		for _, oc := range []string{"1", "7", "7.7", "0.01", "1234567"} {
